@@ -471,7 +471,8 @@ fn eval_format<'a>(args: &[Option<Value<'a>>]) -> Option<Value<'a>> {
         Value::Null => return Some(Value::Null),
         _ => return None,
     };
-    let decimals = get_int(args.get(1)?)?.max(0) as usize;
+    // MySQL clamps the number of decimals of FORMAT to 30; an unbounded precision panics in `format!`
+    let decimals = get_int(args.get(1)?)?.clamp(0, 30) as usize;
 
     let formatted = format!("{:.prec$}", number, prec = decimals);
     let parts: Vec<&str> = formatted.split('.').collect();
